@@ -351,6 +351,36 @@ def check(ctx, report):
     # ---- R8: a rendering that stores into the rendered object (or into a shared enum member value) makes the next rendering
     # depend on the ones before it; decided with the effect analysis of C13.R1 restricted to the serialiser entry points
     from .c13 import observers_pure
+    # ---- R9: Serializable._get_ordered_dict keeps the order of an OrderedDict and *sorts* the keys of a plain dict, while the two
+    # compare equal whatever their order: a mapping valued field that admits a plain dict makes equal objects (one parsed, one
+    # built by hand; one before and one after a round trip) render differently
+    report.rule('C14.R9', 'mapping valued fields of rendered classes are ordered mappings (a plain dict is rendered sorted, an equal OrderedDict in wire order)')
+    n9 = 0
+    for k in model.repo_classes():
+        if not k.is_subclass_of('Serializable') or not k.has_attrs():
+            continue
+        for fld in k.own_fields:
+            v = fld.validator_node
+            d = fld.default_node
+            texts = [ast.unparse(x) for x in (v, d) if x is not None]
+            if not any('dict' in t.lower() for t in texts):
+                continue
+            n9 += 1
+            report.count('C14.R9')
+            plain = False
+            for x in (v, d):
+                if x is None:
+                    continue
+                for call in [y for y in ast.walk(x) if isinstance(y, ast.Call) and ast.unparse(y.func).split('.')[-1] in ('instance_of', 'Factory')]:
+                    args = call.args[0].elts if call.args and isinstance(call.args[0], ast.Tuple) else call.args[:1]
+                    if any(isinstance(a, ast.Name) and a.id == 'dict' for a in args):
+                        plain = True
+            if plain and v is not None and 'instance_of' in ast.unparse(v):
+                report.add('C14.R9', '%s@mapping[%s]' % (k.construct, fld.name),
+                           '%s.%s admits a plain dict: the serialiser renders its keys sorted, while an equal OrderedDict (what a caller builds, '
+                           'or what an earlier version parsed) is rendered in insertion order - equal objects give different JSON / Markdown' % (k.name, fld.name))
+    if n9 < 1:
+        report.error('C14.R9: no mapping valued field of a rendered class found (anchor moved)')
     report.rule('C14.R8', 'serialisers store nothing into the rendered object: output does not depend on earlier renderings')
     observers_pure(ctx, report, RULE='C14.R8', names=['_asdict', 'as_json', '_as_markdown', 'as_markdown', '__str__', 'host_key_asdict',
                                                      '_markdown_result', '_markdown_result_complex', '_markdown_human_readable_names',
